@@ -132,6 +132,26 @@ def oracle_c05(rec):
     return out
 
 
+def runner_with_embedding_schedule(case, seed, forced):
+    """every second run is made with RDKit's 3D embedding FAILING for every fragment (MolGen then takes its 2D fallback): the embedding
+    is a library outcome the molecule must not depend on, explored here as a schedule instead of waiting for a token that RDKit cannot embed"""
+    from rng import Recorder
+    if seed % 2 == 0:
+        return genrun.run_real(case, Recorder(seed), forced)
+    import gbigsmiles.mol_gen as _mg
+    orig = _mg.AllChem.EmbedMolecule
+
+    def shim(mol, *a, **k):
+        orig(mol, *a, **k)
+        mol.RemoveAllConformers()
+        return -1
+    _mg.AllChem.EmbedMolecule = shim
+    try:
+        return genrun.run_real(case, Recorder(seed), forced)
+    finally:
+        _mg.AllChem.EmbedMolecule = orig
+
+
 def main():
     ck = Check("C05")
     ck.do_build()
@@ -140,7 +160,7 @@ def main():
     cases = genrun.corpus_cases()
     cases += genrun.gen_cases(rnd, 250 if quick else 4000)
     recs = genrun.run_batch(ck, cases, seeds_per_case=2 if quick else 4, what=("struct", "mass"), seed_base=ck.seed * 104729 + 5,
-                            oracles=[oracle_c05], forced=genrun.cap_targets)
+                            oracles=[oracle_c05], forced=genrun.cap_targets, runner=runner_with_embedding_schedule)
     for rec in recs:
         s = rec["summary"]
         key = (rec["case"].text, tuple(genrun.history(rec["log"])))
@@ -149,7 +169,8 @@ def main():
         if s is not None:
             ck.count("residues", len(s["sizes"]))
     ck.rule = ("one case = one real generation (string, recorded random history); non-trivial = more than one residue; distinct by (string, history); "
-               "corpus + all archetypes incl. aromatic, charged, isotope, bracket and ring tokens")
+               "corpus + all archetypes incl. aromatic, charged, isotope, bracket and ring tokens; every second generation runs with RDKit's 3D embedding "
+               "failing for every fragment (2D fallback of MolGen)")
     ck.extra["assumptions"] = ["RDKit: CombineMols appends atoms, AddBond adds exactly that bond, HeavyAtomMolWt sums non-H atomic weights",
                                "sanitisation / hydrogen counts are RDKit's valence model: oracle only (C05_chemistry_partial)"]
     ck.finish()
